@@ -1,5 +1,5 @@
 # replay of a bounded stand-in violation (C15): re-run native/c15_hbar.py
 import sys
-print('bosonic homodyne-select hbar=3.1: running the same program a second time gives mean_photon = [0.0, 0.07772], the first run gave [0.0, 0.09419]')
+print('gaussian Gaussian-prep: fock_prob at hbar=2.0 is [0.07292, 0.91479], at hbar=0.5 it is [0.22584, 0.34974]')
 print('REPLAY-VIOLATION')
 sys.exit(1)
